@@ -309,6 +309,8 @@ def classify(M: Model, text: str, n: str, label_names: set[str]) -> str:
         if isinstance(op, ast.In):
             if parent_of(l, n) and isinstance(r, ast.Name) and r.id in label_names:
                 return "parent-labelled"
+            if _is_name(l, n) and isinstance(r, ast.Name) and r.id in label_names:
+                return "memo"  # the module has its label already
             if const_str(l) == "." and _is_name(r, n):
                 return "has-parent"
         if isinstance(op, ast.Is) and isinstance(r, ast.Constant) and r.value is None and isinstance(l, ast.Call) and isinstance(l.func, ast.Attribute) and l.func.attr == "get" and isinstance(l.func.value, ast.Name) and l.func.value.id in label_names and len(l.args) == 1 and parent_of(l.args[0], n):
@@ -321,6 +323,10 @@ def classify(M: Model, text: str, n: str, label_names: set[str]) -> str:
     # truthiness
     if parent_of(e, n) or _separator_of(e, n):
         return "has-parent"  # '' for a name without a '.'
+    from .c17_labels import _parents_call
+
+    if _parents_call(e, n):
+        return "has-parent"  # the list of parent modules is empty for a top-level module
     if isinstance(e, ast.Call) and isinstance(e.func, ast.Attribute) and e.func.attr == "count" and _is_name(e.func.value, n) and len(e.args) == 1 and const_str(e.args[0]) == ".":
         return "has-parent"
     if isinstance(e, ast.Call) and isinstance(e.func, ast.Attribute) and e.func.attr == "get" and isinstance(e.func.value, ast.Name) and e.func.value.id in label_names:
@@ -408,10 +414,19 @@ def rule_inductive(C, inductive: list, events: list, label_names: set[str]) -> N
         C.unsure(r2, what_f, f"which label a module gets depends on `{unknown[0][:80]}`: not recognised as 'has an alias itself' / 'has a parent' / 'the parent has a label'", ev0.node)
         return
     uses_labelled = any(k in ("parent-labelled", "parent-unlabelled") for k in atom_kind.values())
+    memo = [a for a, k in atom_kind.items() if k == "memo"]
+    if memo and any(e.nloop is not L for e in events):
+        stray = next(e for e in events if e.nloop is not L)
+        C.unsure(r2, what_f, f"`{memo[0][:60]}` skips modules that have a label already, and `{norm(stray.node, 60)}` stores labels outside the pass that computes them: not read", stray.node)
+        return
+    if memo and flavour != "recursion":
+        C.unsure(r2, what_f, f"which label a module gets depends on `{memo[0][:80]}` (the module has a label already) in a pass that reads the labels back: not read", ev0.node)
+        return
     problems = []
     for own, has_parent in itertools.product([True, False], repeat=2):
         # in an ancestors-first pass over a parent-closed node set the parent has a label exactly when there is a parent
-        val = {"self-aliased": own, "has-parent": has_parent, "no-parent": not has_parent, "parent-labelled": has_parent, "parent-unlabelled": not has_parent}
+        # (memoised recursion: a label that is in the mapping already was put there by this very function, for a descendant's sake)
+        val = {"self-aliased": own, "has-parent": has_parent, "no-parent": not has_parent, "parent-labelled": has_parent, "parent-unlabelled": not has_parent, "memo": False}
         env = {a: val[k] for a, k in atom_kind.items()}
         active = [e for e in group if evaluate(guards[id(e)], env)]
         if not active:
@@ -444,6 +459,8 @@ def rule_inductive(C, inductive: list, events: list, label_names: set[str]) -> N
     read = parsed[0][1][2]
     if order == "ancestors-first":
         C.ok(r2, what_o, f"`{read}` is read in a pass over `{shown}`: sorted names put every ancestor before its descendants (a proper dotted prefix is a proper string prefix / is shorter), so the parent's label is final when it is used" + (" - given that the node set is closed under parents, as NetworkxGraph builds it" if uses_labelled else ""), L)
+    elif order in ("insertion", "arbitrary", "descendants-first") and M.loops_around(L, whiles=True):
+        C.unsure(r2, what_o, f"`{read}` is read back from the label mapping in a pass over `{shown}` that is itself repeated by an enclosing loop: whether the repetition makes the labels final is not read", L)
     elif order in ("insertion", "arbitrary", "descendants-first"):
         why = {
             "insertion": "the insertion order of the graph's nodes, which does not put a module's ancestors before it (NetworkxGraph adds the node of a listed module before the nodes of its parents)",
